@@ -50,17 +50,20 @@ type vzOracles struct {
 
 	// C10: what was durable when a node crashed, per node index
 	crashSnap map[int]*vzCrashSnap
+	offered   map[int]map[[2]uint64]map[string]bool // node -> round -> proposals offered to the strategy (current incarnation)
 }
 
 // vzCrashSnap is the durable state of a node at the moment its process died.
 type vzCrashSnap struct {
-	inc     int
-	nhr     [4]uint64
-	hasNHR  bool
-	commits map[uint64]string
-	fins    map[uint64]string
-	rounds  map[[2]uint64]*vzViewDigest // stored proposals and votes of the voting and committing rounds
-	checked map[[2]uint64]bool
+	inc          int
+	nhr          [4]uint64
+	hasNHR       bool
+	commits      map[uint64]string
+	fins         map[uint64]string
+	rounds       map[[2]uint64]*vzViewDigest // stored proposals and votes of the voting and committing rounds
+	checked      map[[2]uint64]bool
+	offered      map[[2]uint64]map[string]bool // proposals the strategy had been offered per round before the stop
+	checkedStrat map[[2]uint64]bool
 }
 
 type vzDeliveredView struct {
@@ -110,6 +113,7 @@ func (o *vzOracles) init(w *vzWorld) {
 	o.lastView = map[string]vzViewDigest{}
 	o.advChain = map[uint64]string{}
 	o.crashSnap = map[int]*vzCrashSnap{}
+	o.offered = map[int]map[[2]uint64]map[string]bool{}
 }
 
 func (o *vzOracles) violate(prop, key, f string, a ...any) {
@@ -980,7 +984,52 @@ func (o *vzOracles) onCrash(nd *vzNode) {
 			sn.rounds[hr] = dg
 		}
 	}
+	sn.offered, sn.checkedStrat = o.offered[nd.idx], map[[2]uint64]bool{}
+	o.offered[nd.idx] = nil
 	o.crashSnap[nd.idx] = sn
+}
+
+// onStrategyOffered records the proposed headers the consensus strategy is offered (on entering a round or
+// when asked to consider) and, for C10, checks on the first entrance into a resumed round after a restart
+// that every stored proposal the strategy had already been offered in that round before the stop is offered again.
+func (o *vzOracles) onStrategyOffered(nd *vzNode, h uint64, r uint32, phs []tmconsensus.ProposedHeader, entering bool) {
+	if !o.on["C10"] || nd.byz || o.w.s.Stopped() {
+		return
+	}
+	o.mu.Lock()
+	defer o.mu.Unlock()
+	hr := [2]uint64{h, uint64(r)}
+	have := map[string]bool{}
+	for _, ph := range phs {
+		have[string(ph.Header.Hash)+"/"+string(ph.Signature)] = true
+	}
+	if sn := o.crashSnap[nd.idx]; entering && sn != nil && nd.inc == sn.inc+1 && sn.rounds[hr] != nil && !sn.checkedStrat[hr] {
+		sn.checkedStrat[hr] = true
+		live := false // the restarted mirror may already have left the round (startup view shift): then its view is gone
+		if n := len(nd.disk.nhr); n > 0 {
+			l := nd.disk.nhr[n-1]
+			live = (l[0] == hr[0] && l[1] == hr[1]) || (l[2] == hr[0] && l[3] == hr[1])
+		}
+		var keys []string
+		for k := range sn.rounds[hr].phs {
+			keys = append(keys, k)
+		}
+		sort.Strings(keys)
+		for _, k := range keys {
+			if live && sn.offered[hr][k] && !have[k] {
+				o.violate("C10", "stored-proposal-not-offered-after-restart", "%s: on entering the resumed round %d/%d the consensus strategy was not offered proposed header %x, which was in the round store when the process stopped and which it had been offered in that round before", nd.ident(), h, r, trunc(strings.SplitN(k, "/", 2)[0]))
+			}
+		}
+	}
+	if o.offered[nd.idx] == nil {
+		o.offered[nd.idx] = map[[2]uint64]map[string]bool{}
+	}
+	if o.offered[nd.idx][hr] == nil {
+		o.offered[nd.idx][hr] = map[string]bool{}
+	}
+	for k := range have {
+		o.offered[nd.idx][hr][k] = true
+	}
 }
 
 // checkResumedView: the first view of a resumed round that the restarted node publishes must contain
